@@ -5,7 +5,7 @@ Driver ops of C19 (harness/cc/determinism.go, census19_suite.go):
   c19mods <rootname> <root> <graph>        module order of the html index
         (model: reachable files sorted by name; real: index.html)
   c19site <key>                            census tie: the regenerated table's entry
-  c19det <seed> <cfg> <R> <keep> / c19dir <cfg> <R> <dir>
+  c19det <s|t><seed> <gen> <R> <keep> / c19dir <gen> <R> <dir>
         a determinism run; the model is a function, its outputs over repetitions are
         one and the same: `ok same`
 graph: nodes `i=inc,inc,…` separated by `;`, inc = `name.target.vendor`, `-` = no includes.
@@ -74,10 +74,10 @@ def stepDeterminism (op : String) (args : List String) : Option String :=
       else if s.pattern.accounted then "present " ++ s.kind ++ " " ++ s.pattern.name
       else "unknown-site"
     | none => "unknown-site"
-  | "c19det", [seed, cfg, r, _keep] =>
-    some (if c19IsNat (seed.drop 1).toString && seed.startsWith "s" && c19IsNat cfg && c19IsNat r then "ok same" else "bad-op")
-  | "c19dir", [cfg, r, _dir] =>
-    some (if c19IsNat cfg && c19IsNat r then "ok same" else "bad-op")
+  | "c19det", [seed, _gen, r, _keep] =>
+    some (if c19IsNat (seed.drop 1).toString && (seed.startsWith "s" || seed.startsWith "t") && c19IsNat r then "ok same" else "bad-op")
+  | "c19dir", [_gen, r, _dir] =>
+    some (if c19IsNat r then "ok same" else "bad-op")
   | "c19ord", _ => some "bad-op"
   | "c19mods", _ => some "bad-op"
   | "c19site", _ => some "bad-op"
